@@ -56,6 +56,14 @@ class Elf:
                 return out
         return None
 
+    def dynsym_names(self):
+        """names in .dynsym (never consulted by goom; used to ask for names that must stay unknown in stripped builds)"""
+        for s in self.sections:
+            if s['type'] == 11:
+                strs = self.sections[s['link']]
+                return [self.cstr(strs['off'] + struct.unpack_from('<I', self.d, s['off'] + 24 * i)[0]) for i in range(1, s['size'] // 24)]
+        return []
+
     def pclntab(self):
         """[(name, entry offset from text start)] of `.gopclntab`, None when there is no such section"""
         s = self.section(b'.gopclntab')
@@ -82,8 +90,12 @@ class Elf:
     def describe(self):
         """The abstract file of Model/Sym.lean: text address, pclntab entries, ELF symbols."""
         t = self.section(b'.text')
-        return {'text': None if t is None else t['addr'], 'pcln': self.pclntab(), 'syms': None if self.symtab() is None else
-                [(s['name'], s['value']) for s in self.symtab()]}
+        st = self.symtab()
+        return {'text': None if t is None else t['addr'], 'pcln': self.pclntab(), 'syms': None if st is None else
+                [(s['name'], s['value']) for s in st],
+                # does the entry name a place in the image?  not: undefined references, FILE / SECTION markers, TLS offsets
+                'symaddr': None if st is None else [s['shndx'] != 0 and (s['info'] & 0xf) not in (3, 4, 6) for s in st],
+                'dynsym_names': self.dynsym_names()}
 
     # ---- patching (section headers and .symtab are not used by the kernel loader or the Go runtime: the result still runs)
     def set_text_addr(self, addr):
@@ -129,6 +141,6 @@ def describe_bytes(data):
     try:
         d = Elf(data).describe()
     except (ValueError, struct.error, IndexError):
-        return {'elf': False, 'text': None, 'pcln': None, 'syms': None}
+        return {'elf': False, 'text': None, 'pcln': None, 'syms': None, 'symaddr': None, 'dynsym_names': []}
     d['elf'] = True
     return d
